@@ -123,4 +123,55 @@ theorem conv_of_parse (s : List Char) (os : List Oct) (h : globParse s = some os
           exact ipAddress4_join _ _ _ _ _ _ _ _ b0 b1 b2 b3 d0 d1 d2 d3
     · exact absurd h (by simp)
 
+theorem plain_of_decOctet {t : List Char} {v : Nat} (h : decOctet t = some v) :
+    plainNum t = true ∧ numVal t ≤ 255 := by
+  rw [decOctet_eq] at h
+  split at h
+  · next hc => exact hc
+  · exact absurd h (by simp)
+
+/-- the strings a grammatical glob hands to `IPAddress(...)` are four plain decimal octets
+    0..255 without leading zeros, joined by dots -/
+theorem tokens_plain (s : List Char) (os : List Oct) (h : globParse s = some os) :
+    ∃ t0 t1 t2 t3 u0 u1 u2 u3,
+      (startEndStrings s).1 = ['.'].intercalate [t0, t1, t2, t3] ∧
+      (startEndStrings s).2 = ['.'].intercalate [u0, u1, u2, u3] ∧
+      ∀ t ∈ [t0, t1, t2, t3, u0, u1, u2, u3], plainNum t = true ∧ numVal t ≤ 255 := by
+  unfold globParse at h
+  cases hm : mapOpt parseOct (s.splitOn '.') with
+  | none => simp [hm] at h
+  | some os' =>
+    simp only [hm] at h
+    split at h
+    · next hc =>
+      have hlen := mapOpt_length _ _ _ hm
+      rw [hc.1] at hlen
+      match hsp : s.splitOn '.', hlen with
+      | [t0, t1, t2, t3], _ =>
+        rw [hsp] at hm
+        obtain ⟨o0, r0, p0, hm, e0⟩ := mapOpt_cons_some hm
+        obtain ⟨o1, r1, p1, hm, e1⟩ := mapOpt_cons_some hm
+        obtain ⟨o2, r2, p2, hm, e2⟩ := mapOpt_cons_some hm
+        obtain ⟨o3, r3, p3, hm, e3⟩ := mapOpt_cons_some hm
+        obtain ⟨a0, b0, _⟩ := octet_tokens t0 o0 p0
+        obtain ⟨a1, b1, _⟩ := octet_tokens t1 o1 p1
+        obtain ⟨a2, b2, _⟩ := octet_tokens t2 o2 p2
+        obtain ⟨a3, b3, _⟩ := octet_tokens t3 o3 p3
+        refine ⟨(octetTokens t0).1, (octetTokens t1).1, (octetTokens t2).1, (octetTokens t3).1,
+          (octetTokens t0).2, (octetTokens t1).2, (octetTokens t2).2, (octetTokens t3).2, ?_, ?_, ?_⟩
+        · simp only [startEndStrings, hsp, List.map_cons, List.map_nil]
+        · simp only [startEndStrings, hsp, List.map_cons, List.map_nil]
+        · intro t ht
+          simp only [List.mem_cons, List.not_mem_nil, or_false] at ht
+          rcases ht with rfl | rfl | rfl | rfl | rfl | rfl | rfl | rfl
+          · exact plain_of_decOctet a0
+          · exact plain_of_decOctet a1
+          · exact plain_of_decOctet a2
+          · exact plain_of_decOctet a3
+          · exact plain_of_decOctet b0
+          · exact plain_of_decOctet b1
+          · exact plain_of_decOctet b2
+          · exact plain_of_decOctet b3
+    · exact absurd h (by simp)
+
 end NV.C17
